@@ -1,4 +1,5 @@
 """C07 — compare is equality of comparison forms: an equivalence with strict errors."""
+import os
 from props.common import *
 from props.profiles_common import *
 
@@ -19,9 +20,43 @@ FAMILIES = {
 FAMILIES['up'] = FAMILIES['um']
 
 
+def case_compose_families(ctx):
+    """families {[U, m], [l, m], [composite]} for every composition pair (l, m) -> composite whose first element is the
+    lowercase of some letter U: the spellings differ by case and by canonical composition at the same time"""
+    import verif
+    norm = open(os.path.join(verif.DUMP, 'norm.txt')).read().splitlines()
+    std = parse_rle_text(open(os.path.join(verif.DUMP, 'std.txt')).read())
+    upper_of = {}
+    for s_, e, v in std['std_tolower']:
+        if v != 'id' and ' ' not in v:
+            for c in range(s_, e + 1):
+                upper_of.setdefault(int(v, 16), c)
+    fams = []
+    for l in norm:
+        f = l.split('\t')
+        if f[0] == 'comp':
+            a, b, c = int(f[1], 16), int(f[2], 16), int(f[3], 16)
+            if a in upper_of:
+                fams.append([[upper_of[a], b], [a, b], [c], [upper_of[a], b, 0x20], [0x20, c]])
+    fams.append([[0x130, 0x327], [0x69, 0x327, 0x307], [0x69, 0x307, 0x327], [0x12F, 0x307]])
+    return fams
+
+
 def correspondence(ctx):
     corr = Corr()
     cases = []
+    fams = case_compose_families(ctx)
+    if ctx.tier == 'quick':
+        fams = fams[::4] + fams[-1:]
+    corr.count('case_compose_families', len(fams))
+    for fam in fams:
+        for prof in ('nick', 'um', 'op'):
+            for a in fam:
+                for b in fam:
+                    if prof != 'nick' and (0x20 in a or 0x20 in b) and prof == 'um':
+                        continue
+                    cases.append(f'prof|{prof}|compare|f|b|{hexs(a)}|{hexs(b)}')
+                cases.append(f'prof|{prof}|enforce|f|b|{hexs(a)}|')
     for prof, fam in FAMILIES.items():
         for a in fam:
             for b in fam:
@@ -88,7 +123,7 @@ def correspondence(ctx):
                         if cmp_[(p, a, c)] != 'ok:true':
                             corr.spec_violations.append((f'prof|{p}|compare|f|b|{a}|{c}', cmp_[(p, a, c)], f'VIOLATED:not transitive via {b}'))
     corr.count('transitivity_triples_checked', ntrans)
-    corr.rule = ('compare of all four profiles on all ordered pairs within families of variants of one name (case, width, spacing, NFC/NFD/NFKC spellings, titlecase, Cherokee, invalid and empty members) '
+    corr.rule = ('compare of all four profiles on all ordered pairs within families of variants of one name (case, width, spacing, NFC/NFD/NFKC spellings, titlecase, Cherokee, invalid and empty members), within families built from EVERY composition pair whose first element is a lowercase letter (upper+mark / lower+mark / precomposed / with spaces), '
                  f'and on all ordered pairs of a sample of strings of length <= {n}; reflexivity, symmetry, transitivity and agreement with enforce checked on the implementation\'s own answers. '
                  'distinct_nontrivial = distinct (profile, result, operands) for equal/error results on distinct operands, (profile, false, lengths) otherwise')
     return corr
